@@ -67,7 +67,7 @@ def run_reader(scn, data, validate=1, kind=None, opts=None):
     else:
         sch = scn["sched"]
         # a serial port that delivers fewer bytes than asked is a fault (timeout), not segmentation
-        decider = RngDecider(R.random.Random(sch["seed"]), {"seg": "full" if kind == "serial" else sch["seg"]})
+        decider = RngDecider(R.random.Random(sch["seed"]), {"seg": "full" if kind == "serial" else sch["seg"], "aims": sch.get("aims", ()) if kind == "socket" else ()})
     budget = 8 * len(data) + 600
     st = W.Stream(kind, data, decider, budget, rawbuf=scn.get("rawbuf", 64))
     kwf, calls = W.make_handler(o.get("handler"))
@@ -76,7 +76,7 @@ def run_reader(scn, data, validate=1, kind=None, opts=None):
             return RTCMReader(ds, validate=validate, quitonerror=o["quitonerror"], labelmsm=o.get("labelmsm", 1), parsed=o.get("parsed", True), bufsize=scn.get("bufsize", 4096), **kwf())
 
         ho = (scn["handover"], make) if scn.get("handover") is not None else None
-        events = W.drive(lambda: make(st.obj), st, scn.get("driver", "iterate"), 0, handover=ho)
+        events = W.drive(lambda: make(st.obj), st, scn.get("driver", "iterate"), scn.get("poll", 0) if kind == "socket" else 0, handover=ho)
     except SimBudgetExceeded as e:
         return None, st, calls, str(e)
     return events, st, calls, None
